@@ -1,5 +1,6 @@
 SPECIFICATION Spec
 INVARIANT Sane
+INVARIANT MixedPaddingStillValidated
 INVARIANT StillDrawOfAnimatedSource
 INVARIANT RelaxingNeverRejects
 CHECK_DEADLOCK FALSE
